@@ -27,6 +27,9 @@ func apathD(v ssa.Value, d int) string {
 	}
 	switch x := v.(type) {
 	case *ssa.Parameter:
+		if a, ok := apathSubst[x]; ok {
+			return apathD(a, d+1)
+		}
 		return x.Name()
 	case *ssa.FreeVar:
 		return "^" + x.Name()
@@ -163,6 +166,49 @@ func staticCalleeName(cc *ssa.CallCommon) string {
 }
 
 // allInstrs iterates over all instructions of fn.
+// apathSubst maps the parameters of a helper newer than the rules to the
+// arguments of the call being looked through (set by allInstrsDeep only).
+var apathSubst = map[*ssa.Parameter]ssa.Value{}
+
+// allInstrsDeep is allInstrs that also looks through static calls of functions
+// the reference tree did not have (newfuncs.go): their instructions are visited
+// as if written at the call site, with access paths expressed in the caller's
+// terms. Pattern rules use it so that extracting a helper does not hide the
+// statements they look for.
+func allInstrsDeep(fn *ssa.Function, f func(in ssa.Instruction)) {
+	var walk func(g *ssa.Function, depth int)
+	walk = func(g *ssa.Function, depth int) {
+		for _, b := range g.Blocks {
+			for _, in := range b.Instrs {
+				f(in)
+				call, ok := in.(ssa.CallInstruction)
+				if !ok || depth >= 4 {
+					continue
+				}
+				callee := call.Common().StaticCallee()
+				if callee == nil || !isNewFunc(callee) || callee == g {
+					continue
+				}
+				args := call.Common().Args
+				var set []*ssa.Parameter
+				for i, p := range callee.Params {
+					if i < len(args) {
+						if _, dup := apathSubst[p]; !dup {
+							apathSubst[p] = args[i]
+							set = append(set, p)
+						}
+					}
+				}
+				walk(callee, depth+1)
+				for _, p := range set {
+					delete(apathSubst, p)
+				}
+			}
+		}
+	}
+	walk(fn, 0)
+}
+
 func allInstrs(fn *ssa.Function, f func(in ssa.Instruction)) {
 	for _, b := range fn.Blocks {
 		for _, in := range b.Instrs {
